@@ -390,6 +390,40 @@ def r_grammar(P, R):
         R.violation('R-GRAMMAR', 'doc-spelling', 'doc.md', 'NAME',
                     "identifiers with digits, _ and ' are not lexed as one "
                     'NAME', unit=unit)
+    # an identifier that begins with a keyword is still one identifier
+    # (PLY tries function rules in the order they are defined: a rule for
+    # a keyword placed before the rule for names splits `item` into
+    # `ite` + `m`)
+    words = set(lexer.reserved)
+    for r in lexer.rules:
+        for a in (lexer.alternatives(r) or []):
+            if a.replace('_', 'a').isalnum() and not a[0].isdigit():
+                words.add(a)
+        w = re.sub(r'\s+', '', r.pattern)
+        if w.replace('_', 'a').isalnum() and not w[0].isdigit():
+            words.add(w)
+    bad_words = []
+    for w in sorted(words):
+        for suffix in ('m', '_1', "'", '8'):
+            name = w + suffix
+            if name in lexer.reserved:
+                continue
+            n += 1
+            if lexer.lex(name) != [('NAME', name)]:
+                bad_words.append((w, name, lexer.lex(name)))
+                break
+    if bad_words:
+        w, name, got = bad_words[0]
+        R.violation(
+            'R-GRAMMAR', 'keyword-prefix', 'dd._parser.Lexer', w,
+            f'the identifier {name!r} is lexed as {got}: a rule for the '
+            f'keyword {w!r} is tried before the rule for names, so every '
+            'name that begins with it is split (PLY tries function rules '
+            'in definition order)', unit=unit)
+    else:
+        R.holds('R-GRAMMAR', 'dd._parser.Lexer',
+                f'identifiers that begin with one of the {len(words)} '
+                'keywords are lexed as one NAME')
     if 'DOT ==' in doc.block and 'DOT' in doc.block[
             doc.block.index('symbol =='):doc.block.index('tail ==')]:
         if dot == [('NAME', 'x.y')]:
